@@ -119,6 +119,14 @@ func parseRemedy(w []string) (int, *sharedConfig.Remedy) {
 	}
 }
 
+func joinInts(xs []int) string {
+	p := make([]string, len(xs))
+	for i, x := range xs {
+		p[i] = strconv.Itoa(x)
+	}
+	return strings.Join(p, ",")
+}
+
 func md5hex(s string) string {
 	h := md5.Sum([]byte(s))
 	return hex.EncodeToString(h[:])
@@ -222,6 +230,32 @@ func exec(c proto.Case, o *proto.Out) []string {
 					outs[i] = "bad-op"
 					continue
 				}
+				// alt=<name>&<value> (repeatable): request j carries alternative j % len — several keys are
+				// created and used concurrently (get-or-create on the shared map)
+				var alts [][2]string
+				badAlt := false
+				for _, a := range kvAll(w, "alt") {
+					p := strings.Split(a, "&")
+					if len(p) != 2 {
+						badAlt = true
+						break
+					}
+					alts = append(alts, [2]string{proto.Dec(p[0]), proto.Dec(p[1])})
+					pre[md5hex(proto.Dec(p[1]))] = proto.Dec(p[1])
+				}
+				if badAlt {
+					outs[i] = "bad-op"
+					continue
+				}
+				hsAlt := make([]map[string]string, len(alts))
+				for a := range alts {
+					m := map[string]string{}
+					for k, v := range hs {
+						m[k] = v
+					}
+					m[alts[a][0]] = alts[a][1]
+					hsAlt[a] = m
+				}
 				res := make([]string, n)
 				var wg sync.WaitGroup
 				start := make(chan struct{})
@@ -231,19 +265,30 @@ func exec(c proto.Case, o *proto.Out) []string {
 						defer wg.Done()
 						<-start
 						for j := g; j < n; j += par {
-							res[j] = guarded(func() string { return call(plugin, r, hs) })
+							h := hs
+							if len(alts) > 0 {
+								h = hsAlt[j%len(alts)]
+							}
+							res[j] = guarded(func() string { return call(plugin, r, h) })
 						}
 					}(g)
 				}
 				close(start)
 				wg.Wait()
 				np, nb, no, st := 0, 0, 0, "-"
-				for _, a := range res {
+				pa, ba := make([]int, len(alts)), make([]int, len(alts))
+				for j, a := range res {
 					switch {
 					case a == "noop":
 						np++
+						if len(alts) > 0 {
+							pa[j%len(alts)]++
+						}
 					case strings.HasPrefix(a, "early "):
 						nb++
+						if len(alts) > 0 {
+							ba[j%len(alts)]++
+						}
 						if st == "-" {
 							st = strings.TrimPrefix(a, "early ")
 						} else if st != strings.TrimPrefix(a, "early ") {
@@ -254,6 +299,9 @@ func exec(c proto.Case, o *proto.Out) []string {
 					}
 				}
 				outs[i] = fmt.Sprintf("passed=%d blocked=%d other=%d status=%s", np, nb, no, strings.ReplaceAll(st, " ", "_"))
+				if len(alts) > 0 {
+					outs[i] += " pa=" + joinInts(pa) + " ba=" + joinInts(ba)
+				}
 				o.Count("burst")
 				if np > 0 {
 					passed = true
